@@ -46,9 +46,11 @@ VARIABLES
     dok,      \* peers whose IPFS daemon answers
     failed,   \* peer -> cid -> "none" | "pin" | "unpin": the error entry p's tracker holds for the cid
     outs,     \* outages so far
+    left,     \* peer -> CIDs whose best-effort local unpin (pin moved to other peers) failed: the tracker
+              \* reports such a CID as "remote" and recover does not retry it (tolerated by design, C05)
     act
 
-vars == <<log, applied, todo, ipfs, up, dok, failed, outs, act>>
+vars == <<log, applied, todo, ipfs, up, dok, failed, outs, left, act>>
 
 NoPin == [k |-> "none", mode |-> "-", allocs |-> {}, everywhere |-> FALSE, rmin |-> 0, rmax |-> 0, exp |-> FALSE]
 
@@ -74,6 +76,7 @@ Init ==
     /\ dok = PEERS
     /\ failed = [p \in PEERS |-> [c \in CIDS |-> "none"]]
     /\ outs = 0
+    /\ left = [p \in PEERS |-> {}]
     /\ act = [name |-> "Init"]
 
 \* allocations a correct allocator may choose (C03): between rmin and rmax
@@ -94,13 +97,13 @@ Pin(at, c, mode, rmin, rmax) ==
                     log' = Append(log, [k |-> "pin", cid |-> c,
                          pin |-> [k |-> "pin", mode |-> mode, allocs |-> a, everywhere |-> FALSE, rmin |-> rmin, rmax |-> rmax, exp |-> FALSE]])
     /\ act' = [name |-> "Pin", at |-> at, cid |-> c, mode |-> mode, rmin |-> rmin, rmax |-> rmax]
-    /\ UNCHANGED <<applied, todo, ipfs, up, dok, failed, outs>>
+    /\ UNCHANGED <<applied, todo, ipfs, up, dok, failed, outs, left>>
 
 Unpin(at, c) ==
     /\ Len(log) < MaxOps /\ at \in up /\ Pinset[c].k = "pin"
     /\ log' = Append(log, [k |-> "unpin", cid |-> c, pin |-> NoPin])
     /\ act' = [name |-> "Unpin", at |-> at, cid |-> c]
-    /\ UNCHANGED <<applied, todo, ipfs, up, dok, failed, outs>>
+    /\ UNCHANGED <<applied, todo, ipfs, up, dok, failed, outs, left>>
 
 \* pin update (C04): the new CID gets the source's mode, factors and allocations; the source stays
 PinUpdate(at, from, to) ==
@@ -108,14 +111,14 @@ PinUpdate(at, from, to) ==
     /\ Pinset[from].k = "pin" /\ Pinset[to].k = "none"
     /\ log' = Append(log, [k |-> "pin", cid |-> to, pin |-> [Pinset[from] EXCEPT !.exp = FALSE]])
     /\ act' = [name |-> "PinUpdate", at |-> at, from |-> from, cid |-> to]
-    /\ UNCHANGED <<applied, todo, ipfs, up, dok, failed, outs>>
+    /\ UNCHANGED <<applied, todo, ipfs, up, dok, failed, outs, left>>
 
 \* a pin is given an expiry that has now passed (time is not modelled: the pin is re-logged as expired)
 PinExpiring(at, c) ==
     /\ Len(log) < MaxOps /\ at \in up /\ Pinset[c].k = "pin" /\ ~Pinset[c].exp
     /\ log' = Append(log, [k |-> "pin", cid |-> c, pin |-> [Pinset[c] EXCEPT !.exp = TRUE]])
     /\ act' = [name |-> "PinExpiring", at |-> at, cid |-> c]
-    /\ UNCHANGED <<applied, todo, ipfs, up, dok, failed, outs>>
+    /\ UNCHANGED <<applied, todo, ipfs, up, dok, failed, outs, left>>
 
 \* StateSync on every live peer (C10): each expired pin is unpinned, by exactly one peer
 StateSyncAll ==
@@ -124,7 +127,7 @@ StateSyncAll ==
        IN /\ ex # {}
           /\ log' = log \o [i \in 1..Cardinality(ex) |-> [k |-> "unpin", cid |-> sq[i], pin |-> NoPin]]
     /\ act' = [name |-> "StateSyncAll"]
-    /\ UNCHANGED <<applied, todo, ipfs, up, dok, failed, outs>>
+    /\ UNCHANGED <<applied, todo, ipfs, up, dok, failed, outs, left>>
 
 \* consensus applies the next entry on p and hands it to the tracker
 Apply(p) ==
@@ -132,7 +135,7 @@ Apply(p) ==
     /\ applied' = [applied EXCEPT ![p] = @ + 1]
     /\ todo' = [todo EXCEPT ![p] = Append(@, log[applied[p] + 1])]
     /\ act' = [name |-> "Apply", p |-> p]
-    /\ UNCHANGED <<log, ipfs, up, dok, failed, outs>>
+    /\ UNCHANGED <<log, ipfs, up, dok, failed, outs, left>>
 
 \* tracker + connector + daemon carry out the oldest instruction; with the daemon down (or a direct
 \* pin over a recursive one, C05 finding) the call fails and the tracker keeps an error entry
@@ -141,11 +144,18 @@ TrackerStep(p) ==
     /\ LET op   == Head(todo[p])
            want == IF op.k = "unpin" THEN "none" ELSE AssignedMode(op.pin, p)
            refused == ipfs[p][op.cid] = "rec" /\ want = "dir"
+           remote == op.k = "pin" /\ want = "none"       \* Track of a pin allocated elsewhere: synchronous, best-effort unpin
        IN IF p \in dok /\ ~refused
             THEN /\ ipfs' = [ipfs EXCEPT ![p][op.cid] = want]
                  /\ failed' = [failed EXCEPT ![p][op.cid] = "none"]
+                 /\ left' = [left EXCEPT ![p] = @ \ {op.cid}]
+            ELSE IF remote
+            THEN /\ ipfs' = ipfs
+                 /\ failed' = [failed EXCEPT ![p][op.cid] = "none"]      \* the operation is of type "remote": no error status
+                 /\ left' = [left EXCEPT ![p] = IF ipfs[p][op.cid] # "none" THEN @ \cup {op.cid} ELSE @]
             ELSE /\ ipfs' = ipfs
                  /\ failed' = [failed EXCEPT ![p][op.cid] = IF want = "none" THEN "unpin" ELSE "pin"]
+                 /\ left' = left
     /\ todo' = [todo EXCEPT ![p] = Tail(@)]
     /\ act' = [name |-> "TrackerStep", p |-> p]
     /\ UNCHANGED <<log, applied, up, dok, outs>>
@@ -154,13 +164,13 @@ IpfsDown(p) ==
     /\ p \in up /\ p \in dok /\ outs < MaxOut
     /\ dok' = dok \ {p} /\ outs' = outs + 1
     /\ act' = [name |-> "IpfsDown", p |-> p]
-    /\ UNCHANGED <<log, applied, todo, ipfs, up, failed>>
+    /\ UNCHANGED <<log, applied, todo, ipfs, up, failed, left>>
 
 IpfsHeal(p) ==
     /\ p \in up /\ p \notin dok
     /\ dok' = dok \cup {p}
     /\ act' = [name |-> "IpfsHeal", p |-> p]
-    /\ UNCHANGED <<log, applied, todo, ipfs, up, failed, outs>>
+    /\ UNCHANGED <<log, applied, todo, ipfs, up, failed, outs, left>>
 
 \* RecoverAll on p (daemon answering, nothing else in flight on p): every error entry is retried, a
 \* failed pin with the pin the shared state holds now, a failed unpin as an unpin
@@ -174,7 +184,7 @@ RecoverAll(p) ==
                           THEN [k |-> "pin", cid |-> sq[i], pin |-> Pinset[sq[i]]]
                           ELSE [k |-> "unpin", cid |-> sq[i], pin |-> NoPin]]]
     /\ act' = [name |-> "RecoverAll", p |-> p]
-    /\ UNCHANGED <<log, applied, ipfs, up, dok, failed, outs>>
+    /\ UNCHANGED <<log, applied, ipfs, up, dok, failed, outs, left>>
 
 \* q fails; exactly one survivor re-homes every pin that fell below its minimum
 PeerFail(q) ==
@@ -195,7 +205,7 @@ PeerFail(q) ==
                IN log' = log \o [i \in 1..Cardinality(chg) |->
                             [k |-> "pin", cid |-> seqc[i], pin |-> [ps[seqc[i]] EXCEPT !.allocs = newallocs[seqc[i]]]]]
     /\ act' = [name |-> "PeerFail", q |-> q]
-    /\ UNCHANGED <<applied, todo, ipfs, dok, failed, outs>>
+    /\ UNCHANGED <<applied, todo, ipfs, dok, failed, outs, left>>
 
 Next ==
     \/ \E at \in PEERS, c \in CIDS, m \in {"rec", "dir"} :
@@ -216,24 +226,26 @@ NoExpiredOn(ps) == \A c \in DOMAIN ps : ~(ps[c].k = "pin" /\ ps[c].exp)
 
 \* the end-to-end promise (the tolerated class of C05: a direct pin of a CID the
 \* daemon still holds recursively)
-E2EOn(ps, ip, live) ==
+E2EOn(ps, ip, live, lft) ==
     \A p \in live : \A c \in DOMAIN ps :
         \/ ip[p][c] = AssignedMode(ps[c], p)
         \/ (ip[p][c] = "rec" /\ AssignedMode(ps[c], p) = "dir")
+        \* a pin that moved to other peers while the local daemon was failing stays pinned locally (best effort)
+        \/ (c \in lft[p] /\ ps[c].k = "pin" /\ AssignedMode(ps[c], p) = "none")
 
 NoFailed == \A p \in up : \A c \in CIDS : failed[p][c] = "none" \/ (failed[p][c] = "pin" /\ ipfs[p][c] = "rec" /\ AssignedMode(Pinset[c], p) = "dir")
-E2EInv == (Settled /\ NoFailed) => E2EOn(Pinset, ipfs, up)
+E2EInv == (Settled /\ NoFailed) => E2EOn(Pinset, ipfs, up, left)
 
 \* an error entry is never silently lost: while a live peer's daemon differs from its assignment and
 \* nothing is in flight, the tracker holds an error entry for that CID (so that recover can repair it)
 ErrorKept == Settled => \A p \in up : \A c \in CIDS :
-    (ipfs[p][c] # AssignedMode(Pinset[c], p)) => failed[p][c] # "none"
+    (ipfs[p][c] # AssignedMode(Pinset[c], p)) => (failed[p][c] # "none" \/ c \in left[p])
 
 \* liveness: with fairness on the internal steps, healing and recovering, the cluster always gets
 \* back to agreement between daemons and pinset
 Fair == /\ \A p \in PEERS : WF_vars(Apply(p)) /\ WF_vars(TrackerStep(p)) /\ WF_vars(IpfsHeal(p)) /\ SF_vars(RecoverAll(p))
 LiveSpec == Spec /\ Fair
-Agreement == Settled /\ E2EOn(Pinset, ipfs, up)
+Agreement == Settled /\ E2EOn(Pinset, ipfs, up, left)
 EventuallyAgrees == []<>Agreement
 
 \* allocations name live peers at the time they are made and respect the factors
